@@ -532,7 +532,8 @@ func hostileModel(fx *fixture, r *prng, v int) (*openfgav1.WriteAuthorizationMod
 		}
 		note = fmt.Sprintf("ttu ring n=%d", n)
 	case 15: // exponential-looking diamond: r_i = r_{i+1} or r_{i+1}
-		n := rec.Pick(r, []int{8, 12, 24})
+		// n = 24 (minutes of CPU, finding model_validation_exponential) only as a systematic variant
+		n := rec.Pick(r, []int{6, 10, 14})
 		if v >= 0 {
 			n = []int{8, 12, 24}[(v/nModelShapes)%3]
 		}
